@@ -183,9 +183,9 @@ def _iso_child(i):
                         _c["h"] = json.load(f)
                 except Exception:
                     return False
-            short = fn_label.split(".")[-1].split("[")[0]
-            return any(short and short in (f.get("function", "") + " " + c.get("name", "")) for c in _c["h"].get("clauses", []) for f in c.get("failures", [])
-                       if not str(f.get("signature", "")).startswith("F-"))
+            # the native evaluation already holds a concrete failing input that is not a listed finding: the check will report it, and
+            # walking the rest of the ladder for obligations that no longer prove would only cost time
+            return any(not str(f.get("signature", "")).startswith("F-") for c in _c["h"].get("clauses", []) for f in c.get("failures", []))
     vs = solve.discharge(r.obls, timeout_s=_ISO["timeout"], all_backends=_ISO["all_backends"], give_up=give_up, jobs=_ISO["jobs"]) if r.obls else []
     cs = solve.discharge(r.covers, timeout_s=_ISO["cover_timeout"], jobs=_ISO["jobs"]) if r.covers else []
     obls = [Rec(name=o.name, kind=o.kind, fn=o.fn, note=o.note, line=getattr(o, "line", 0), goal=str(o.goal)[:400], n_hyps=len(o.hyps)) for o in r.obls]
